@@ -64,6 +64,7 @@ class Exchange:
         self.next_id = 7000
         self.async_ = False
         self.published = None  # state of the table when the stream last published it
+        self.async_timeout = False
 
     def _new(self, ref, side, price, size, selection_id, handicap):
         self.next_id += 1
@@ -82,7 +83,8 @@ class Exchange:
             lo = ins["limitOrder"]
             bid = self._new(ins["customerOrderRef"], ins["side"], lo["price"], lo["size"], ins["selectionId"], ins.get("handicap", 0))
             if kw.get("async_"):
-                reps.append(lc.place_report("SUCCESS", "PENDING", None))
+                # (an asynchronous request may also be answered TIMEOUT: the exchange took it and will place the bet)
+                reps.append(lc.place_report("TIMEOUT", None, None) if self.async_timeout else lc.place_report("SUCCESS", "PENDING", None))
             else:
                 reps.append(lc.place_report("SUCCESS", "EXECUTABLE", bid))
         return lc.response(place_instruction_reports=reps)
@@ -188,6 +190,8 @@ def h11a(c, K=3, async_place=False, on_world=None, epilogue_fill=False):
     against a bet table; at quiescence (all responses delivered, latest snapshot processed twice) flumine agrees with the exchange"""
     with cm.config_set(simulated=False, async_place_orders=async_place):
         ex = Exchange()
+        if async_place:
+            ex.async_timeout = c.choose("async_placement_answer", ["SUCCESS/PENDING", "TIMEOUT"]) == "TIMEOUT"
         fl, client, (strategy,) = cm.new_live(exchange=ex)
         at_once = c.choose("request_reaches_exchange", ["when-its-answer-is-processed", "at-once"]) == "at-once"
         c.tag("at_once", at_once)
